@@ -7,6 +7,7 @@
 -/
 import PyodaModel.WeekYear
 import PyodaProofs.Basic
+import PyodaProofs.C01Instances
 
 namespace Pyoda.C16
 open Pyoda Pyoda.WeekYear
@@ -149,6 +150,79 @@ theorem weeks_advance (w d : Int) (h1 : weekYearStart r c w ≤ d) (h2 : d < wee
   omega
 
 end
+
+/-! ### the ISO rule agrees with CPython's `isocalendar` -/
+
+def isoRule' : Rule := ⟨4, 1, false⟩
+
+theorem isoRule_ok : RuleOK isoRule' := by simp [RuleOK, isoRule']
+
+/-- CPython's first-Monday computation is the ISO rule's week-year start (as an ordinal) -/
+theorem pyIsoWeek1Monday_eq (c : Cal) (y : Int) :
+    pyIsoWeek1Monday c y = weekYearStart isoRule' c y + 719163 := by
+  simp only [pyIsoWeek1Monday, weekYearStart, isoRule']
+  split <;> split <;> split <;> omega
+
+/-- For every date of a calendar whose years have at least 365 days (the Gregorian table in particular), the
+    ISO rule's (week-year, week, weekday) is exactly what `datetime.date.isocalendar()` computes. -/
+theorem iso_rule_matches_isocalendar {c : Cal} (hc : CalWF c) (hlen : ∀ y, 365 ≤ c.len y) (cy d : Int)
+    (h1 : c.start cy ≤ d) (h2 : d < c.start (cy + 1)) :
+    pyIsocalendar c cy d = (weekYear isoRule' c cy d, weekOf isoRule' c cy d, dayOfWeek d) := by
+  have hr := isoRule_ok
+  have s0 := weeks_span hr hc cy
+  have sm := weeks_span hr hc (cy - 1)
+  have wA := weekYearStart_window hr (c := c) cy
+  have wB := weekYearStart_window hr (c := c) (cy + 1)
+  have wC := weekYearStart_window hr (c := c) (cy - 1)
+  have aA := weekYearStart_aligned hr (c := c) cy
+  have aC := weekYearStart_aligned hr (c := c) (cy - 1)
+  have aB := weekYearStart_aligned hr (c := c) (cy + 1)
+  have hy := hc cy
+  have hy' := hc (cy - 1)
+  have l0 := hlen cy
+  have l1 := hlen (cy - 1)
+  have e1 : cy - 1 + 1 = cy := by omega
+  rw [e1] at sm hy'
+  rw [dayOfWeek_eq] at aA aB aC
+  simp only [pyIsocalendar, pyIsoWeek1Monday_eq, weekYear, weekOf, dayOfWeek_eq, isoRule', Bool.false_eq_true, if_false]
+  simp only [isoRule'] at *
+  simp (disch := decide) only [tdiv_pos]
+  by_cases c1 : d < weekYearStart ⟨4, 1, false⟩ c cy
+  · have g1 : (d + 719163 - (weekYearStart ⟨4, 1, false⟩ c cy + 719163)) / 7 < 0 := by omega
+    simp only [g1, if_true, c1]
+    refine Prod.ext ?_ (Prod.ext ?_ ?_) <;> simp only [] <;> (try split) <;> omega
+  · have g1 : ¬ (d + 719163 - (weekYearStart ⟨4, 1, false⟩ c cy + 719163)) / 7 < 0 := by omega
+    simp only [g1, if_false, c1]
+    by_cases c2 : d < weekYearStart ⟨4, 1, false⟩ c cy + weeksIn ⟨4, 1, false⟩ c cy * 7
+    · have g2 : ¬ ((d + 719163 - (weekYearStart ⟨4, 1, false⟩ c cy + 719163)) / 7 ≥ 52 ∧
+          d + 719163 ≥ weekYearStart ⟨4, 1, false⟩ c (cy + 1) + 719163) := by omega
+      simp only [g2, if_false, c2, if_true]
+      refine Prod.ext ?_ (Prod.ext ?_ ?_) <;> simp only [] <;> (try split) <;> omega
+    · have g2 : (d + 719163 - (weekYearStart ⟨4, 1, false⟩ c cy + 719163)) / 7 ≥ 52 ∧
+          d + 719163 ≥ weekYearStart ⟨4, 1, false⟩ c (cy + 1) + 719163 := by omega
+      simp only [g2, and_self, if_true, c2, if_false]
+      refine Prod.ext ?_ (Prod.ext ?_ ?_) <;> simp only [] <;> (try split) <;> omega
+
+/-- the Gregorian/ISO calendar of the Calendar area as a week-year table -/
+def gregCal : Cal :=
+  { start := Calendar.Greg.start, len := Calendar.Greg.len, minYear := -9998, maxYear := 9999,
+    minDays := -4371222, maxDays := 2932896 }
+
+theorem greg_len_ge (y : Int) : 365 ≤ Calendar.Greg.len y := by
+  unfold Calendar.Greg.len; split <;> omega
+
+theorem gregCal_wf : CalWF gregCal ∧ ∀ y, 365 ≤ gregCal.len y := by
+  refine ⟨fun y => ?_, fun y => greg_len_ge y⟩
+  show Calendar.Greg.start (y + 1) = Calendar.Greg.start y + Calendar.Greg.len y ∧ 7 ≤ Calendar.Greg.len y
+  have := C01.greg_recur y
+  have hl := greg_len_ge y
+  exact ⟨this.1, by omega⟩
+
+/-- **ISO 8601**: for every Gregorian date, the ISO rule gives exactly CPython's `isocalendar()` -/
+theorem iso_matches_isocalendar_gregorian (cy d : Int)
+    (h1 : Calendar.Greg.start cy ≤ d) (h2 : d < Calendar.Greg.start (cy + 1)) :
+    pyIsocalendar gregCal cy d = (weekYear isoRule' gregCal cy d, weekOf isoRule' gregCal cy d, dayOfWeek d) :=
+  iso_rule_matches_isocalendar gregCal_wf.1 gregCal_wf.2 cy d h1 h2
 
 /-! ### weekday navigation -/
 
